@@ -7,11 +7,12 @@ CONSTANTS
   Ops = {"newuser","setuser","deluser","getuser","list","restart","login","update1"}
   SubKinds = {"put","ren","del"}
   Thin = TRUE
+  Long = TRUE
   Rand = FALSE
 INIT Init
 NEXT Next
 VIEW View
 CONSTRAINT Bound
-INVARIANTS TypeOK ViewsAgree HashOnly RestartIsIdentity
-PROPERTIES NewCanLogin DeletedCannotLogin PasswordSemantics RenamedAwayCannotLogin ReadOnlySteps RoundOfOne
+INVARIANTS TypeOK ViewsAgree HashOnly RestartIsIdentity NoOverlongAccount
+PROPERTIES NewCanLogin DeletedCannotLogin PasswordSemantics RenamedAwayCannotLogin ReadOnlySteps RoundOfOne OverlongLeavesNoTrace
 CHECK_DEADLOCK FALSE
